@@ -4,6 +4,77 @@ use crate::util::*;
 use fastcgi_server::protocol as fcgi;
 use fcgi::varint::VarInt;
 use std::io::ErrorKind;
+use std::borrow::Cow;
+use std::hash::{Hash, Hasher};
+use fastcgi_server::cgi::{OwnedVarName, StaticVarName, VarName};
+use fastcgi_server::{Config, ExitStatus};
+
+/// A `Hasher` that records the sequence of `write` calls (the property quantifies over arbitrary hashers:
+/// equal write sequences give equal hashes for every hasher).
+#[derive(Default)]
+pub struct RecHasher(pub Vec<Vec<u8>>);
+impl Hasher for RecHasher {
+    fn finish(&self) -> u64 { 0 }
+    fn write(&mut self, bytes: &[u8]) { self.0.push(bytes.to_vec()); }
+}
+pub fn rec_hash<T: Hash + ?Sized>(t: &T) -> Vec<Vec<u8>> { let mut h = RecHasher::default(); t.hash(&mut h); h.0 }
+
+pub fn mk_owned(ctor: &str, arg: &[u8]) -> Option<OwnedVarName> {
+    let s = String::from_utf8(arg.to_vec()).ok()?;
+    Some(match ctor {
+        "str" => OwnedVarName::from(s.as_str()),
+        "varname" => OwnedVarName::from(VarName::new(&s)),
+        "toowned" => VarName::new(&s).to_owned(),
+        "cowb" => OwnedVarName::from(Cow::Borrowed(s.as_str())),
+        "cowo" => OwnedVarName::from(Cow::<str>::Owned(s)),
+        "string" => OwnedVarName::from(s),
+        "box" => OwnedVarName::from(s.into_boxed_str()),
+        "mutstr" => { let mut m = s; OwnedVarName::from_mut_str(&mut m) }
+        "static" => OwnedVarName::from(s.parse::<StaticVarName>().ok()?),
+        "header" => OwnedVarName::from(&http::header::HeaderName::from_bytes(arg).ok()?),
+        _ => return None,
+    })
+}
+fn ord_str(o: std::cmp::Ordering) -> &'static str { match o { std::cmp::Ordering::Less => "lt", std::cmp::Ordering::Equal => "eq", std::cmp::Ordering::Greater => "gt" } }
+fn parse_pairs(s: &str) -> Option<Vec<(Vec<u8>, Vec<u8>)>> {
+    if s == "-" { return Some(vec![]); }
+    s.split(',').map(|it| { let (a, b) = it.split_once(':')?; Some((unhex(a), unhex(b))) }).collect()
+}
+fn proto_err(e: &fcgi::Error) -> String {
+    match e {
+        fcgi::Error::UnknownVersion(v) => format!("err version {v}"),
+        fcgi::Error::UnknownRecordType(t) => format!("err rtype {t}"),
+        fcgi::Error::UnknownRole(r) => format!("err role {r}"),
+        fcgi::Error::UnknownStatus(x) => format!("err status {x}"),
+        e => format!("err other {e:?}"),
+    }
+}
+fn arr8(b: &[u8]) -> Option<[u8; 8]> { b.try_into().ok() }
+pub fn config(buffer_size: usize, max_conns: usize) -> Config {
+    let mut c = Config::with_conns(std::num::NonZeroUsize::new(max_conns.max(1)).unwrap());
+    c.buffer_size = buffer_size;
+    c
+}
+fn sink_run(cap: &str, f: impl Fn(&mut dyn std::io::Write) -> std::io::Result<usize>) -> Option<String> {
+    let (res, out) = if cap == "vec" {
+        let mut o: Vec<u8> = Vec::new();
+        let r = f(&mut o);
+        (r, o)
+    } else {
+        let c: usize = cap.parse().ok()?;
+        let mut buf = vec![0u8; c];
+        let mut w = &mut buf[..];
+        let r = f(&mut w);
+        let left = w.len();
+        buf.truncate(c - left);
+        (r, buf)
+    };
+    Some(match res {
+        Ok(n) => format!("ok {n} out={}", hexd(&out)),
+        Err(e) if e.kind() == ErrorKind::WriteZero => format!("err out={}", hexd(&out)),
+        Err(e) => format!("err-other {:?} out={}", e.kind(), hexd(&out)),
+    })
+}
 
 #[derive(Default)]
 pub struct Impl {
@@ -121,6 +192,131 @@ impl Impl {
                     Err(e) => format!("err other {:?}", e.kind()),
                 };
                 format!("{rs} out={}", hexd(&out))
+            }
+
+            ["hdr.dec", h] => {
+                let Some(a8) = arr8(&unhex(h)) else { return Some("short".into()) };
+                match fcgi::RecordHeader::from_bytes(a8) {
+                    Ok(hd) => format!("ok {} {} {} {} mgmt={} re={}", u8::from(hd.rtype), hd.request_id, hd.content_length,
+                                      hd.padding_length, hd.is_management(), hex(&hd.to_bytes())),
+                    Err(e) => proto_err(&e),
+                }
+            }
+            ["hdr.enc", t, i, c, p] => {
+                let hd = fcgi::RecordHeader { version: fcgi::Version::V1, rtype: fcgi::RecordType::try_from(t.parse::<u8>().ok()?).ok()?,
+                    request_id: i.parse().ok()?, content_length: c.parse().ok()?, padding_length: p.parse().ok()? };
+                hex(&hd.to_bytes())
+            }
+            ["hdr.setlen", c] => {
+                let mut hd = fcgi::RecordHeader::new(fcgi::RecordType::Stdin, 1);
+                hd.set_lengths(c.parse().ok()?);
+                let pb = hd.padding_bytes();
+                if pb.len() != usize::from(hd.padding_length) || pb.iter().any(|&b| b != 0) { return Some("padding_bytes-wrong".into()); }
+                format!("{} {}", hd.content_length, hd.padding_length)
+            }
+            ["begin.dec", h] => {
+                let Some(a8) = arr8(&unhex(h)) else { return Some("short".into()) };
+                match fcgi::body::BeginRequest::from_bytes(a8) {
+                    Ok(b) => format!("ok {} {} re={}", u16::from(b.role), u8::from(b.flags), hex(&b.to_bytes())),
+                    Err(e) => proto_err(&e),
+                }
+            }
+            ["begin.rec", r, f, i] => {
+                let b = fcgi::body::BeginRequest { role: fcgi::Role::try_from(r.parse::<u16>().ok()?).ok()?, flags: fcgi::RequestFlags::from(f.parse::<u8>().ok()?) };
+                hex(&b.to_record(i.parse().ok()?))
+            }
+            ["end.dec", h] => {
+                let Some(a8) = arr8(&unhex(h)) else { return Some("short".into()) };
+                match fcgi::body::EndRequest::from_bytes(a8) {
+                    Ok(e) => format!("ok {} {} re={}", e.app_status, u8::from(e.protocol_status), hex(&e.to_bytes())),
+                    Err(e) => proto_err(&e),
+                }
+            }
+            ["end.rec", ap, ps, i] => {
+                let e = fcgi::body::EndRequest { app_status: ap.parse().ok()?, protocol_status: fcgi::ProtocolStatus::try_from(ps.parse::<u8>().ok()?).ok()? };
+                hex(&e.to_record(i.parse().ok()?))
+            }
+            ["unk.dec", h] => {
+                let Some(a8) = arr8(&unhex(h)) else { return Some("short".into()) };
+                let u = fcgi::body::UnknownType::from_bytes(a8);
+                format!("ok {} re={}", u.rtype, hex(&u.to_bytes()))
+            }
+            ["unk.rec", t, i] => hex(&fcgi::body::UnknownType { rtype: t.parse().ok()? }.to_record(i.parse().ok()?)),
+            ["exit.map", k, c] => {
+                let code: u32 = c.parse().ok()?;
+                let st = match *k { "complete" => ExitStatus::Complete(code), "overloaded" => ExitStatus::Overloaded, "unknownrole" => ExitStatus::UnknownRole,
+                                    "abort" => ExitStatus::ABORT, "success" => ExitStatus::SUCCESS, _ => return None };
+                let e = fcgi::body::EndRequest::from(st);
+                format!("{} {}", e.app_status, u8::from(e.protocol_status))
+            }
+            ["vars.name", h] => match fcgi::ProtocolVariables::parse_name(&unhex(h)) { Ok(v) => format!("ok {}", v.bits()), Err(_) => "unknown".into() },
+            ["vars.resp", set, mc, pre, target] => {
+                let pv = fcgi::ProtocolVariables::from_bits_truncate(set.parse().ok()?);
+                let cfg = config(8192, mc.parse().ok()?);
+                let preb = unhex(pre);
+                let (n, out): (usize, Vec<u8>) = if *target == "small" {
+                    let mut sv: smallvec::SmallVec<[u8; 64]> = smallvec::SmallVec::from_slice(&preb);
+                    let n = pv.write_response(&mut sv, &cfg);
+                    (n, sv.to_vec())
+                } else {
+                    let mut v = preb.clone();
+                    let n = pv.write_response(&mut v, &cfg);
+                    (n, v)
+                };
+                format!("{} {} preserved={}", n, hex(&out[preb.len().min(out.len())..]), out.len() >= preb.len() && out[..preb.len()] == preb[..])
+            }
+            ["cfg.aligned", b] => {
+                let cfg = config(b.parse().ok()?, 1);
+                let mut p = fastcgi_server::parser::request::Parser::new(&cfg);
+                format!("{}", p.input_buffer().len())
+            }
+            ["role.streams", r] => {
+                let role = fcgi::Role::try_from(r.parse::<u16>().ok()?).ok()?;
+                let f = |l: &[fcgi::RecordType]| if l.is_empty() { "-".to_string() } else { l.iter().map(|&t| u8::from(t).to_string()).collect::<Vec<_>>().join(",") };
+                format!("in={} out={}", f(role.input_streams()), f(role.output_streams()))
+            }
+            ["role.next", r, c] => {
+                let role = fcgi::Role::try_from(r.parse::<u16>().ok()?).ok()?;
+                let cur = if *c == "none" { None } else { Some(fcgi::RecordType::try_from(c.parse::<u8>().ok()?).ok()?) };
+                match role.next_input_stream(cur) { None => "none".into(), Some(t) => u8::from(t).to_string() }
+            }
+            ["name.rel", a, b] => {
+                let (sa, sb) = (String::from_utf8(unhex(a)).ok()?, String::from_utf8(unhex(b)).ok()?);
+                let (x, y) = (VarName::new(&sa), VarName::new(&sb));
+                format!("eq={} cmp={} heq={}", x == y, ord_str(x.cmp(y)), rec_hash(x) == rec_hash(y))
+            }
+            ["name.hash", a] => {
+                let sa = String::from_utf8(unhex(a)).ok()?;
+                rec_hash(VarName::new(&sa)).iter().map(|w| hex(w)).collect::<Vec<_>>().join("|")
+            }
+            ["static.parse", a] => {
+                let sa = String::from_utf8(unhex(a)).ok()?;
+                match sa.parse::<StaticVarName>() { Ok(s) => format!("ok {}", hexd(s.as_ref().as_bytes())), Err(_) => "err".into() }
+            }
+            ["owned.mk", c, a] => { let o = mk_owned(c, &unhex(a))?; hexd(o.as_ref().as_bytes()) }
+            ["owned.rel", c1, a, c2, b] => {
+                let x = mk_owned(c1, &unhex(a))?; let y = mk_owned(c2, &unhex(b))?;
+                format!("eq={} cmp={} heq={} a={} b={}", x == y, ord_str(x.cmp(&y)), rec_hash(&x) == rec_hash(&y), hexd(x.as_ref().as_bytes()), hexd(y.as_ref().as_bytes()))
+            }
+            ["resp.redirect", cap, loc] => {
+                let l = String::from_utf8(unhex(loc)).ok()?;
+                sink_run(cap, |w| fastcgi_server::cgi::response::simple_redirect(w, &l))?
+            }
+            ["resp.headers", cap, code, _reason, hs] => {
+                let st = http::StatusCode::from_u16(code.parse().ok()?).ok()?;
+                let hdrs = parse_pairs(hs)?;
+                sink_run(cap, |w| fastcgi_server::cgi::response::write_headers(w, st, hdrs.iter().map(|(n, v)| (&n[..], &v[..]))))?
+            }
+            ["resp.httph", cap, code, _reason, hs] => {
+                let st = http::StatusCode::from_u16(code.parse().ok()?).ok()?;
+                let hdrs = parse_pairs(hs)?;
+                let mut rb = http::Response::builder().status(st);
+                for (n, v) in &hdrs { rb = rb.header(&n[..], &v[..]); }
+                let resp = rb.body(()).ok()?;
+                // the op lists the headers in the map's iteration order (the generator reads it back)
+                let order: Vec<(Vec<u8>, Vec<u8>)> = resp.headers().iter().map(|(n, v)| (n.as_str().as_bytes().to_vec(), v.as_bytes().to_vec())).collect();
+                if order != hdrs { return Some("order-differs".into()); }
+                sink_run(cap, |w| fastcgi_server::cgi::response::http_headers(w, &resp))?
             }
             _ => return None,
         })
